@@ -250,9 +250,9 @@ def read_gro(text):
 def read_param_file(text):
     """A parameter include file holding [ atomtypes ] and / or [ nonbond_params ] (GROMACS manual, "Topology file",
     directives of the parameter level): per [ atomtypes ] line the NAME (first column), per [ nonbond_params ] line the two
-    type names (first two columns).  #ifdef / #ifndef / #endif lines are listed, anything else that fits no directive is
+    type names (first two columns); atparams / nbvalues hold the remaining columns of the same lines.  #ifdef / #ifndef / #endif lines are listed, anything else that fits no directive is
     'malformed'.  Added for C03 (go_atomtypes.itp, go_nbparams.itp, virtual_sites_*.itp); shares nothing with vermouth."""
-    out = {'sections': [], 'atomtypes': [], 'nbparams': [], 'conditions': [], 'malformed': []}
+    out = {'sections': [], 'atomtypes': [], 'atparams': [], 'nbparams': [], 'nbvalues': [], 'conditions': [], 'malformed': []}
     section = None
     for line in _logical_lines(text):
         body, _comment = _split_comment(line)
@@ -274,9 +274,11 @@ def read_param_file(text):
         if section == 'atomtypes' and len(toks) >= 6:
             # name [bonded type [at. number]] mass charge ptype V W: at least six columns
             out['atomtypes'].append(toks[0])
+            out['atparams'].append(toks[1:])
         elif section == 'nonbond_params' and len(toks) >= 5:
             # i j func V W
             out['nbparams'].append([toks[0], toks[1]])
+            out['nbvalues'].append(toks[2:])
         else:
             out['malformed'].append(body)
     return out
